@@ -13,12 +13,24 @@
    (SeqModel.rd_range / wr_range), so "released exactly once, never used after release, nothing unallocated
    released" is: [run] never fails and the ledger invariant holds; "net allocation zero" is c16_*_ledger.
 
-   NOT proved (no heap in the existing models; covered by the runtime ledger of tools/props/c16.py only):
-   the storage of Array<String> elements (elements are values in SeqModel), Value trees, HArray / HList /
-   HashTable, tag records (Tags.hpp), QExpression lists, the failure paths of the JSON and template parsers.
+   Phase 2 -- Value trees (coq/LedgerValueModel.v, independent of the C12 model ValueModel.v which has no heap):
+   a value is what it owns -- an object its HArray storage block, the key block and the value of every item
+   (recursively), an array its element block and its elements, a string its character block, a pointer value
+   nothing.  Operations = Value.hpp as it stands after D29, D40v, D42v, D43v, D52, D63, in the ORDER of the code
+   (copy first / detach first, then release, then adopt): assignment by copy and by move incl. from an own member
+   (D40) and copy from an ancestor, get-or-create member, append, append of a value by copy / move, Merge by copy /
+   by move (what is not adopted is released, the source ends Undefined), Remove / RemoveIndex (tombstone),
+   Compress (one level), Reset, destruction.  [vledger]: every block is owned exactly as often as it is live
+   (0 or 1 times) -- no block with two owners, no released block reachable from a variable, every live block owned.
+   A release or a read of a dead block is Error UAF of the model, so [vrun ... = Ok] says there is none.
+
+   NOT proved (no ownership model; covered by the runtime ledger of tools/props/c16.py only): the storage of
+   Array<String> elements (elements are values in SeqModel), the inside of HashTable (hash chains: C13's subject),
+   tag records (Tags.hpp), QExpression lists, the failure paths of the JSON and template parsers.
    Whether a C++ destructor really runs is decided by the C++ runtime, not by these theorems. *)
 From Coq Require Import NArith List.
 From Qv Require Import SeqModel LedgerModel LedgerProofs LedgerProofsArray LedgerProofsString LedgerProofsStream LedgerProofsTop.
+From Qv Require Import LedgerValueModel LedgerProofsValue LedgerProofsValueOps LedgerProofsValueTop.
 Import ListNotations.
 
 (* ---- all histories from the empty pool: the run succeeds (no release of a dead block, no access to one),
@@ -84,3 +96,48 @@ Theorem c16_alloc_fresh : forall (A : Type) (junk : A) (w : @world A) n, ledger_
   al (hp w) (snd (alloc junk (hp w) n)) = false /\ next (fst (alloc junk (hp w) n)) = S (next (hp w)).
 Proof. exact @alloc_fresh. Qed.
 Print Assumptions c16_alloc_fresh.
+
+(* ================= phase 2: Value trees ================= *)
+(* ---- every history on a pool of n variables: the run succeeds (no release of, no read through a dead block),
+        the ledger holds at the end, destroying every variable succeeds and leaves no live block ---- *)
+Theorem c16_value_ledger : forall n (ops : list vop),
+  exists st st', vrun ops (vstate0 n) = Ok st /\ vledger st /\
+    destroy_all_values st = Ok st' /\ live_ids (fst st') = [] /\ snd st' = root0 n.
+Proof. exact value_ledger. Qed.
+Print Assumptions c16_value_ledger.
+
+(* ---- per operation, from every ledger state (any tree shape, any targets): it succeeds and keeps the ledger ---- *)
+Theorem c16_value_step : forall st op, vledger st ->
+  exists st', vstep st op = Ok st' /\ vledger st' /\ length (vkids (snd st')) = length (vkids (snd st)).
+Proof. exact vstep_ledger. Qed.
+Print Assumptions c16_value_step.
+
+(* ---- the ledger means: no block has two owners; live = owned; the live ids are exactly the owned blocks ---- *)
+Theorem c16_value_ledger_meaning : forall st, vledger st ->
+  NoDup (blocks (snd st)) /\ (forall x, live (fst st) x = true <-> In x (blocks (snd st))) /\
+  (forall x, In x (live_ids (fst st)) <-> In x (blocks (snd st))).
+Proof. exact vledger_meaning. Qed.
+Print Assumptions c16_value_ledger_meaning.
+
+(* ---- destruction from any ledger state ---- *)
+Theorem c16_value_destroy_all : forall st, vledger st ->
+  exists st', destroy_all_values st = Ok st' /\ (forall x, live (fst st') x = false) /\ live_ids (fst st') = [] /\
+    snd st' = root0 (length (vkids (snd st))) /\ nxt (fst st') = nxt (fst st).
+Proof. exact destroy_all_values_empty. Qed.
+Print Assumptions c16_value_destroy_all.
+
+(* ---- the two disciplines, for ANY balanced change: copy-then-release at a target; detach-release-adopt ---- *)
+Theorem c16_value_local_change : forall st p reads f, vledger st -> local_ok f ->
+  (forall x, In x reads -> In x (blocks (snd st))) ->
+  exists st', apply_local st p reads f = Ok st' /\ vledger st' /\ length (vkids (snd st')) = length (vkids (snd st)).
+Proof. exact apply_local_ledger. Qed.
+Print Assumptions c16_value_local_change.
+
+Theorem c16_value_absorbing_change : forall st d s g, vledger st -> absorb_ok g ->
+  exists st', apply_absorb st d s g = Ok st' /\ vledger st' /\ length (vkids (snd st')) = length (vkids (snd st)).
+Proof. exact apply_absorb_ledger. Qed.
+Print Assumptions c16_value_absorbing_change.
+
+Theorem c16_value_release_dead_is_error : forall h b, live h b = false -> vfree h b = Error UAF.
+Proof. exact vfree_dead_is_error. Qed.
+Print Assumptions c16_value_release_dead_is_error.
